@@ -110,7 +110,7 @@ def one_history(ctx, shard, i, rng, idx):
                  "options": {k: (v.tolist() if isinstance(v, np.ndarray) else v) for k, v in opts.items()},
                  "pixels": sorted((a, b, v) for (a, b), v in P.items())[:150]}
     it_cap = min(opts["max_iters"], 60)
-    sizes = [1, 2, 3, 7, max(nnz - 1, 1), nnz, nnz + 1, 10**7, None]
+    sizes = [1, 2, 3, 7, max(nnz - 1, 1), max(nnz, 1), nnz + 1, 10**7, None]
     small = [cs for cs in sizes if cs is not None and (-(-nnz // cs)) * it_cap > 900]
     perm_log, pool_log = [], []
     execs = []
@@ -208,7 +208,7 @@ def one_history(ctx, shard, i, rng, idx):
         if ctx.want(cid):
             with ctx.case(cid, dict(base_desc, split=True)) as c:
                 c.feature("split-pipeline")
-                for cs in [1, 2, 3, 7, max(nnz - 1, 1), nnz, nnz + 1, 10**7]:
+                for cs in [1, 2, 3, 7, max(nnz - 1, 1), max(nnz, 1), nnz + 1, 10**7]:
                     if cs is not None and nnz / cs > 400:
                         continue
                     for mname, m in (("builtin", map), ("reverse", sched.reverse_eval_map),
